@@ -420,6 +420,16 @@ func (vc *VC) modularCall(fr *frame, callee *ssa.Function, key string, c *Contra
 		}
 		vc.oblige("call-pre", fmt.Sprintf("precondition of %s: %s", key, r.Name()), r.Props, pos, st.reach, t)
 	}
+	// a callee that never returns (`ensures false`: it ends the process): unless the verified function
+	// says it `aborts`, the call must be unreachable
+	if fr != nil && vc.contract != nil && !vc.contract.Aborts {
+		for _, en := range c.Ensures {
+			if strings.TrimSpace(en.Text) == "false" {
+				vc.oblige("abort", fmt.Sprintf("call of %s, which ends the process, is unreachable (the contract has no `aborts`)", key), nil, pos, st.reach, "false")
+				break
+			}
+		}
+	}
 	// results
 	// (an arbitrary result is created after the callee's allocations have been accounted for: it may
 	// point to a cell the callee allocated)
